@@ -4,7 +4,7 @@ from lib import S, observe_call
 
 GEN = ["NameCleanerParams", "HeaderRowParams"]
 RULE = ("exhaustive over the 12-symbol alphabet {a Z 7 _ - . space tab LF CR e-acute !} up to length 4 (quick) / 5 (thorough); "
-        "random Unicode strings up to length 40; headings pool incl. blank-only and line-break-only headings. For every string also the $anchor that "
+        "random Unicode strings up to length 40; every code point below U+0300, of General Punctuation, Letterlike Symbols, Number Forms, the full-width forms and two digits of every decimal-digit block, alone / after / before / between ASCII letters; headings pool incl. blank-only and line-break-only headings. For every string also the $anchor that "
         "HeadingRowSchemaLoader.header gives a sheet with that single heading, and whether Draft202012Validator.check_schema accepts that schema. Non-trivial = the model's loop ran at least once (branch = iteration count > 0); "
         "distinct = distinct case lines.")
 TRIVIAL_BRANCHES = [0]
@@ -28,6 +28,20 @@ def inputs(ctx):
         k = rng.randint(1, 40)
         pool = rng.choice(pools) + rng.choice(pools)
         yield "random", "".join(rng.choice(pool) for _ in range(k))
+    # every code point of the ranges where Python's `re` classes, case-insensitive matching and str methods have their special
+    # cases (U+0130 U+0131 U+017F U+212A fold to ASCII letters; full-width letters and digits; the decimal digits of other
+    # scripts; the C1 controls and line separators), each alone, after, before and between ASCII letters
+    import unicodedata
+    special = list(range(0, 0x300)) + list(range(0x2000, 0x2070)) + list(range(0x2100, 0x2190)) + list(range(0xFF00, 0xFFF0))
+    special += [c for c in range(0x300, 0x20000) if unicodedata.category(chr(c)) == "Nd" and c % 10 in (0, 7)]
+    special += [0x1E9E, 0x3000, 0xFB01, 0xFEFF, 0xFFFD, 0x1D7CE, 0x1F600, 0xE0001]
+    ctx.exhaustive.append("code_points_of_the_special_ranges_in_4_contexts")
+    for c in special:
+        if 0xD800 <= c <= 0xDFFF:
+            continue
+        ch = chr(c)
+        for t in (ch, "a" + ch, ch + "a", "a" + ch + "B"):
+            yield "code-points", t
     for h in ["Customer Name", "ZIP\nCode", "Amount ($)", "1st", "-x", ".y", "a__b", "a___b", "__", "_", "x\n", "\n", "a\nb",
               "col\r\n2", "Total %", "é", "", "A" * 60 + "\n" * 3]:
         yield "headings", h
